@@ -6,6 +6,7 @@
 // the calls that omit the mode are made there and must behave as the configured mode.
 #define UTF_PROP 2
 #include "utf_harness.h"
+#include <functional>
 
 static void build(vf::Plan &plan, const vf::Opts &o)
 {
@@ -109,6 +110,97 @@ static void build(vf::Plan &plan, const vf::Opts &o)
                [](uint64_t i) { return strf("value %X", i < 32 ? (1u << i) : (0xFFFFFFFFu >> (i - 32))); });
     add_position_sweep(plan, T ? 300 : 70, all);
     add_position_sweep(plan, T ? 80 : 40, all, 7);
+    // ---- strings that legitimately hold malformed bytes (through from_validated / assume_valid, or a left()/substr() cut inside
+    // a character): operations on them validate their *argument*, in its mode, and nothing else - not the string itself, not the
+    // concatenation, and not "the same bytes as before"
+    {
+        static const std::vector<std::string> HELD = {"\xE2\x82", "\xC3", "ab\xFF", "\x80", "\xF0\x9F\x98", "ok", "",
+                                                      std::string(20, 'h') + "\xE2\x82", std::string("\xC3") + std::string(20, 'h')};
+        static const std::vector<std::string> ARGS = {"x", "\xAC", "\xA9", "\x98\x80", "\xE2\x82", "\xFF", "plain argument text that is long", "",
+                                                      std::string(20, 'a') + "\xAC"};
+        plan.stage("strings holding malformed bytes x arguments (valid, continuation bytes that would complete the string, malformed): copy / assign / "
+                   "set / + / += validate the argument alone",
+                   HELD.size() * ARGS.size(),
+                   [](uint64_t i, Ctx &c) {
+                       const std::string &h = HELD[i / ARGS.size()], &a = ARGS[i % ARGS.size()];
+                       std::vector<ref::Item> items;
+                       ref::dec8((const unsigned char *)a.data(), a.size(), items);
+                       bool a_bad = false;
+                       for (auto &it : items) a_bad = a_bad || !it.good;
+                       const bool nul_free = a.find('\0') == std::string::npos;
+                       auto S = [&] { return ST::string::from_validated(h.data(), h.size()); };
+                       auto bytes = [](const ST::string &x) { return std::string(x.c_str(), x.size()); };
+                       auto expect_value = [&](const char *what, const std::function<ST::string()> &f, const std::string &want) {
+                           VF_COUNT("validated");
+                           std::string got;
+                           vf::Outcome o = vf::guard([&] { got = bytes(f()); });
+                           if (!o.ok())
+                               c.fail(strf("c02:held-malformed:%s:%s", what, vf::outkind_name(o.kind)),
+                                      strf("string holding %s, argument %s: %s failed (%s) although nothing it is given needs validation or the argument is "
+                                           "well-formed", vf::hex_str(h, 24).c_str(), vf::hex_str(a, 24).c_str(), what, o.str().c_str()));
+                           else if (got != want)
+                               c.fail(strf("c02:held-malformed:%s:wrong-value", what),
+                                      strf("string holding %s, argument %s: %s gives %s", vf::hex_str(h, 24).c_str(), vf::hex_str(a, 24).c_str(), what, vf::hex_str(got, 40).c_str()));
+                       };
+                       auto expect_throw = [&](const char *what, const std::function<void()> &f) {
+                           VF_COUNT("validated");
+                           vf::Outcome o = vf::guard([&] { f(); });
+                           if (o.kind != vf::EX_UNICODE)
+                               c.fail(strf("c02:held-malformed:%s:accepted-invalid-argument", what),
+                                      strf("string holding %s, malformed argument %s: %s %s", vf::hex_str(h, 24).c_str(), vf::hex_str(a, 24).c_str(), what,
+                                           o.ok() ? "did not throw" : o.str().c_str()));
+                       };
+                       // value semantics never validate
+                       expect_value("copy-ctor", [&] { ST::string s = S(); ST::string t(s); return t; }, h);
+                       expect_value("copy-assign", [&] { ST::string s = S(), t = ST_LITERAL("previous value, long enough for the heap"); t = s; return t; }, h);
+                       expect_value("copy-assign(short target)", [&] { ST::string s = S(), t; t = s; return t; }, h);
+                       expect_value("move-assign", [&] { ST::string s = S(), t; t = std::move(s); return t; }, h);
+                       expect_value("set(const string&)", [&] { ST::string s = S(), t; t.set(s); return t; }, h);
+                       expect_value("s + s", [&] { ST::string s = S(); return s + s; }, h + h);
+                       expect_value("s += s2", [&] { ST::string s = S(), t = S(); t += s; return t; }, h + h);
+                       if (!a_bad) {
+                           if (nul_free) {
+                               expect_value("s + cstr", [&] { return S() + a.c_str(); }, h + a);
+                               expect_value("cstr + s", [&] { return a.c_str() + S(); }, a + h);
+                               expect_value("s += cstr", [&] { ST::string s = S(); s += a.c_str(); return s; }, h + a);
+                               expect_value("s + char8_t cstr", [&] { return S() + (const char8_t *)a.c_str(); }, h + a);
+                           }
+                           expect_value("s + ST::string(arg)", [&] { return S() + ST::string(a.data(), a.size()); }, h + a);
+                       } else {
+                           if (nul_free) {
+                               expect_throw("s + cstr", [&] { (void)(S() + a.c_str()); });
+                               expect_throw("cstr + s", [&] { (void)(a.c_str() + S()); });
+                               expect_throw("s += cstr", [&] { ST::string s = S(); s += a.c_str(); });
+                               expect_throw("s + char8_t cstr", [&] { (void)(S() + (const char8_t *)a.c_str()); });
+                           }
+                       }
+                       // being given the bytes it already holds is not a reason to skip validation
+                       {
+                           std::vector<ref::Item> hi;
+                           ref::dec8((const unsigned char *)h.data(), h.size(), hi);
+                           bool h_bad = false;
+                           for (auto &it : hi) h_bad = h_bad || !it.good;
+                           const ST::char_buffer same(h.data(), h.size());
+                           if (h_bad && i % ARGS.size() == 0) {
+                               expect_throw("set(const char_buffer& holding the same bytes, check_validity)", [&] { ST::string s = S(); s.set(same, ST::check_validity); });
+                               expect_throw("set(ptr,n of the same bytes, check_validity)", [&] { ST::string s = S(); s.set(h.data(), h.size(), ST::check_validity); });
+                               expect_throw("= std::string of the same bytes (default mode)", [&] { ST::string s = S(); s = h; });
+                               VF_COUNT("validated");
+                               std::string got;
+                               vf::Outcome o = vf::guard([&] { ST::string s = S(); s.set(same, ST::substitute_invalid); got = bytes(s); });
+                               std::vector<ref::Item> gi;
+                               ref::dec8((const unsigned char *)got.data(), got.size(), gi);
+                               bool g_bad = false;
+                               for (auto &it : gi) g_bad = g_bad || !it.good;
+                               if (!o.ok() || g_bad || got.find("\xEF\xBF\xBD") == std::string::npos)
+                                   c.fail("c02:held-malformed:set(const char_buffer& holding the same bytes, substitute_invalid):not-repaired",
+                                          strf("string holding %s: result %s", vf::hex_str(h, 24).c_str(), o.ok() ? vf::hex_str(got, 40).c_str() : o.str().c_str()));
+                           }
+                       }
+                       c.nontrivial();
+                   },
+                   [](uint64_t i) { return strf("held %s argument %s", vf::hex_str(HELD[i / ARGS.size()], 24).c_str(), vf::hex_str(ARGS[i % ARGS.size()], 24).c_str()); });
+    }
 #endif
     vf_early::add_stage(plan);
 }
